@@ -13,7 +13,7 @@ from hvsim.world import Field, World
 STUB_KINDS = [
     ("qcow2", {"version": 3, "extl2": False}), ("qcow2", {"version": 3, "extl2": True}), ("qcow2", {"version": 2}),
     ("qcow2", {"data_file": True}), ("qcow2", {"compress": True}),
-    ("vmdk", {"kind": "hosted"}), ("vmdk", {"kind": "stream"}), ("vmdk", {"kind": "cowd"}), ("vmdk", {"kind": "sesparse"}),
+    ("vmdk", {"kind": "hosted", "compressed_grains": False}), ("vmdk", {"kind": "hosted", "compressed_grains": True}), ("vmdk", {"kind": "stream"}), ("vmdk", {"kind": "cowd"}), ("vmdk", {"kind": "sesparse"}),
     ("vhdx", {}), ("vhd", {"fixed": False}), ("vhd", {"fixed": True}), ("vdi", {}), ("hds", {"ver": 1}), ("hds", {"ver": 2}),
 ]
 CHAIN_KINDS = ["vhdx", "vmdk", "hdd", "qcow2", "qcow2snap", "vdi"]
@@ -287,8 +287,12 @@ def _build_other(name: str, world: World, b: Built):
             typ, _, off, size, alloc = struct.unpack("<BIQIB", f.pread(e, 18))
             b.fields += _hdr_fields(p, [(f"entry{i}.type", e, 1, "int"), (f"entry{i}.offset", e + 5, 8, "offset"), (f"entry{i}.size", e + 13, 4, "size"),
                                         (f"entry{i}.allocated", e + 17, 1, "int")], "hyperv.objtable.")
-            if typ == 2 and kt_off is None and alloc:
-                kt_off = off
+            if typ == 2 and alloc:
+                if kt_off is None:
+                    kt_off = off
+                else:
+                    # every further key table: its signature is a validated structure of its own
+                    b.fields += _hdr_fields(p, [("signature", off, 2, "magic")], "hyperv.keytable%d." % i)
         if kt_off is not None:
             b.fields += _hdr_fields(p, [("signature", kt_off, 2, "magic"), ("index", kt_off + 2, 2, "int"), ("sequence_number", kt_off + 4, 2, "int")], "hyperv.keytable.")
             eo = kt_off + 10
